@@ -1,0 +1,10 @@
+//! Read-only observers for external runtime monitors.
+//!
+//! Compiled only with the `verif_hooks` feature; nothing here changes behaviour.
+
+pub use crate::functions::Function;
+
+/// Every built-in function, in declaration order.
+pub fn all_functions() -> Vec<Function> {
+    Function::into_iter().collect()
+}
